@@ -318,42 +318,7 @@ func checkC02(c *Ctx, r *Report) {
 		}
 	}
 	// C02.f every URL-safe {name} the annotation grammar admits is rewritten by the engines
-	// that need rewriting (gin/echo/fiber translate {x} to :x with urlParamRegex)
-	for _, en := range c.T.Order {
-		eng := c.T.Engines[en]
-		fd := eng.Partials["FunctionDeclarations"]
-		if fd == nil || !strings.Contains(fd.Src, "urlParamRegex.ReplaceAllString") {
-			continue
-		}
-		src := eng.Routes.Src
-		viol := ""
-		site := eng.Routes.File + ":1"
-		idx := strings.Index(src, "urlParamRegex = regexp.MustCompile(")
-		if idx < 0 {
-			viol = en + ": urlParamRegex is used by the URL helper but never compiled in routes.hbs"
-		} else {
-			site = fmt.Sprintf("%s:%d", eng.Routes.File, 1+strings.Count(src[:idx], "\n"))
-			rest := src[idx+len("urlParamRegex = regexp.MustCompile("):]
-			pat := ""
-			if len(rest) > 0 && (rest[0] == '`' || rest[0] == '"') {
-				if end := strings.IndexByte(rest[1:], rest[0]); end >= 0 {
-					pat = rest[1 : 1+end]
-				}
-			}
-			cls, ok := braceNameClass(pat)
-			if !ok {
-				viol = fmt.Sprintf("%s: cannot determine the {name} class of urlParamRegex %q", en, pat)
-			} else {
-				for _, ch := range []rune{'a', 'Z', '0', '_', '-'} {
-					if !cls(ch) {
-						viol = fmt.Sprintf("%s: urlParamRegex %q does not accept %q inside {…}: a route parameter such as {account-id} (admitted by the annotation grammar and by the link validator) is not rewritten to the engine's :param syntax, so the route is registered as a literal and never matches", site, pat, string(ch))
-					}
-				}
-			}
-		}
-		o := r.add("C02.f", "setagree", en+":urlParamRegex⊇url-safe-names", en+": every URL-safe parameter name ([A-Za-z0-9_-]) is translated to the engine's parameter syntax", []string{eng.Routes.File + "#urlParamRegex"}, []string{site}, viol)
-		o.NonTrivial = true
-	}
+	checkUrlParamRegex(c, r, "C02.f")
 	// C02.g the routes generator sees the route list validation accepted
 	ruleNoIRMutation(c, r, "C02.g")
 	checkContextPassThrough(c, r, "C02.g")
@@ -389,4 +354,45 @@ func checkContextPassThrough(c *Ctx, r *Report, clause string) {
 		}
 	}
 	r.add(clause, "fieldflow", gtc+":pass-through", "the routes templates see exactly the controllers, models and imports the pipeline produced, in its order", []string{gtc}, sites, viol)
+}
+
+// checkUrlParamRegex (shared by C02.f and C05.g): engines that translate {x} to :x accept
+// every URL-safe parameter name inside the braces.
+func checkUrlParamRegex(c *Ctx, r *Report, clause string) {
+	// that need rewriting (gin/echo/fiber translate {x} to :x with urlParamRegex)
+	for _, en := range c.T.Order {
+		eng := c.T.Engines[en]
+		fd := eng.Partials["FunctionDeclarations"]
+		if fd == nil || !strings.Contains(fd.Src, "urlParamRegex.ReplaceAllString") {
+			continue
+		}
+		src := eng.Routes.Src
+		viol := ""
+		site := eng.Routes.File + ":1"
+		idx := strings.Index(src, "urlParamRegex = regexp.MustCompile(")
+		if idx < 0 {
+			viol = en + ": urlParamRegex is used by the URL helper but never compiled in routes.hbs"
+		} else {
+			site = fmt.Sprintf("%s:%d", eng.Routes.File, 1+strings.Count(src[:idx], "\n"))
+			rest := src[idx+len("urlParamRegex = regexp.MustCompile("):]
+			pat := ""
+			if len(rest) > 0 && (rest[0] == '`' || rest[0] == '"') {
+				if end := strings.IndexByte(rest[1:], rest[0]); end >= 0 {
+					pat = rest[1 : 1+end]
+				}
+			}
+			cls, ok := braceNameClass(pat)
+			if !ok {
+				viol = fmt.Sprintf("%s: cannot determine the {name} class of urlParamRegex %q", en, pat)
+			} else {
+				for _, ch := range []rune{'a', 'Z', '0', '_', '-'} {
+					if !cls(ch) {
+						viol = fmt.Sprintf("%s: urlParamRegex %q does not accept %q inside {…}: a route parameter such as {account-id} (admitted by the annotation grammar and by the link validator) is not rewritten to the engine's :param syntax, so the route is registered as a literal and never matches", site, pat, string(ch))
+					}
+				}
+			}
+		}
+		o := r.add(clause, "setagree", en+":urlParamRegex⊇url-safe-names", en+": every URL-safe parameter name ([A-Za-z0-9_-]) is translated to the engine's parameter syntax", []string{eng.Routes.File + "#urlParamRegex"}, []string{site}, viol)
+		o.NonTrivial = true
+	}
 }
